@@ -407,6 +407,19 @@ def named_skips(rep, tier, seed):
             for w in ("100", "30"):
                 cases.append({"text": text, "config": [["max_width", w]] + cfg, "again": False, "lex": False})
                 meta.append(("macros", pos, dname, mac))
+    # attribute names that an OPTION rewrites: doc (normalize_doc_attributes), derive (merge_derives); named in skip::attributes they
+    # must keep their bytes all the same
+    for aname, attr, presets in (("doc", "#[doc = \"keep   this   text\"]", ([], [["normalize_doc_attributes", "true"]])),
+                                 ("derive", "#[derive(  Clone,Debug )]\n#[derive(Copy)]", ([], [["merge_derives", "true"]], [["merge_derives", "false"]]))):
+        for pos, tmpl in (("top_struct", "%(A)s\nstruct  S ;\n"), ("nested_mod_struct", "mod inner {\n    %(A)s\n    struct  S ;\n}\n"),
+                          ("impl_item", "impl Foo {\n    %(A)s\n    fn  m( &self ) {}\n}\n"), ("field", "struct T {\n    %(A)s\n    a :  u8,\n}\n")):
+            if aname == "derive" and pos in ("impl_item", "field"):
+                continue
+            body = tmpl % {"A": attr.replace("\n", "\n" + (" " * (4 if pos != "top_struct" else 0)))}
+            for dname, text in (("crate", "#![rustfmt::skip::attributes(%s)]\n%s" % (aname, body)), ("enclosing_mod", "#[rustfmt::skip::attributes(%s)]\nmod outer {\n%s}\n" % (aname, body))):
+                for cfg in presets:
+                    cases.append({"text": text, "config": [["max_width", "100"]] + cfg, "again": False, "lex": False})
+                    meta.append(("attributes", "%s_%s" % (aname, pos), dname, attr))
     res = common.run_vh_pool("pool", cases, per_case_timeout=15)
     from . import pool
     found = n = 0
@@ -417,7 +430,7 @@ def named_skips(rep, tier, seed):
         # the bytes of the attribute / macro call, re-indented line by line at most (the first line's indentation follows the node)
         out = r["out"]
         lines = needle.split("\n")
-        ok = lines[0] in out and all(l.strip() in out for l in lines[1:]) and (" ".join(x.strip() for x in lines) not in out)
+        ok = lines[0] in out and all(l.strip() in out for l in lines[1:]) and (len(lines) == 1 or " ".join(x.strip() for x in lines) not in out)
         body_ok = norm_nl(needle) in norm_nl(out) or all(l in out for l in lines)
         if not (ok and body_ok):
             if rep.violation("named_skip:%s:%s:%s" % (what, pos, dname), {"what": what, "position": pos, "declared": dname, "config": c["config"], "input": c["text"], "out": out, "expected_bytes": needle},
@@ -464,6 +477,35 @@ def whole_file(rep):
         if before != after or rc1 != 0 or "lib.rs" in o1:
             if rep.violation("opt_out:%s" % name, {"case": name, "text": text, "args": args, "check_rc": rc1, "check_out": o1, "stderr": e1[-300:], "changed": before != after},
                              "whole-file opt-out %s: changed=%s, --check exit %d, -l output %r" % (name, before != after, rc1, o1)):
+                found += 1
+    # the same opt-outs in a file reached through `mod child;` (the marker before the first token, after the last one, in a block comment)
+    mcases = {
+        "mod_inner_skip": ("#![rustfmt::skip]\n" + ugly, [], None),
+        "mod_generated_line_comment_first": ("// @generated by a tool\n" + ugly, ["--config", "format_generated_files=false"], None),
+        "mod_generated_block_comment_first": ("/* @generated */\n" + ugly, ["--config", "format_generated_files=false"], None),
+        "mod_generated_after_license": ("// Copyright\n// @generated\n\n" + ugly, ["--config", "format_generated_files=false"], None),
+        "mod_generated_doc_comment": ("//! @generated\n" + ugly, ["--config", "format_generated_files=false"], None),
+        "mod_generated_between_items": ("fn first() {}\n// @generated\n" + ugly, ["--config", "format_generated_files=false"], None),
+        "mod_ignore": (ugly, [], 'ignore = ["child.rs"]\n'),
+        "mod_decl_skip": (ugly, [], None),
+    }
+    for name, (text, args, toml) in mcases.items():
+        sub = os.path.join(d, name)
+        os.makedirs(sub)
+        decl = "#[rustfmt::skip]\nmod child;\n" if name == "mod_decl_skip" else "mod child;\n"
+        open(os.path.join(sub, "lib.rs"), "w").write(decl + "fn root() {}\n")
+        f = os.path.join(sub, "child.rs")
+        open(f, "w").write(text)
+        if toml:
+            open(os.path.join(sub, "rustfmt.toml"), "w").write(toml)
+        before = (open(f).read(), os.stat(f).st_mtime_ns)
+        rc1, o1, e1 = common.sh([common.bin_path("rustfmt"), "--check", "-l"] + args + ["lib.rs"], cwd=sub, env=env, timeout=60)
+        rc2, o2, e2 = common.sh([common.bin_path("rustfmt")] + args + ["lib.rs"], cwd=sub, env=env, timeout=60)
+        after = (open(f).read(), os.stat(f).st_mtime_ns)
+        n += 1
+        if before != after or rc1 != 0 or "child.rs" in o1:
+            if rep.violation("opt_out:%s" % name, {"case": name, "text": text, "args": args, "check_rc": rc1, "check_out": o1, "stderr": e1[-300:], "changed": before != after},
+                             "opt-out of a module file (%s): changed=%s, --check exit %d, -l output %r" % (name, before != after, rc1, o1)):
                 found += 1
     shutil.rmtree(d, ignore_errors=True)
     rep.coverage["whole_file_opt_outs_checked"] = n
